@@ -95,6 +95,20 @@ def bindFamily : BindRule → Family → Family
   | .anyV6, _ => .v6
   | .familyOfTarget, f => f
 
+/-! ### which streams are UDP-over-TCP streams (`TcpProxyHandler::handle_stream`) -/
+
+/-- the name the protocol reserves -/
+def reservedName : List Char := ['u', 'd', 'p', '-', 'o', 'v', 'e', 'r', '-', 't', 'c', 'p', '.', 'a', 'r', 'p', 'a']
+
+def hasInfix (pat : List Char) : List Char → Bool
+  | [] => pat.isEmpty
+  | c :: cs => pat.isPrefixOf (c :: cs) || hasInfix pat cs
+
+/-- does the server hand a stream whose destination host is `name` to the UDP relay (instead of dialling it)? -/
+def isUdpName : Gen.MagicRule → List Char → Bool
+  | .contains, name => hasInfix reservedName name
+  | .reservedSuffix, name => name == reservedName || ('.' :: reservedName).isSuffixOf name
+
 /-- does a call on the relay's socket fail because an *earlier* datagram met a closed port?  (The OS rule, assumed: a
     connected UDP socket reports the pending ICMP error on its next call, an unconnected one never does.) -/
 def staleError (connected icmpPending : Bool) : Bool := connected && icmpPending
